@@ -38,6 +38,9 @@ type Config struct {
 	Lists           bool
 	NoRange         bool
 	UnknownResumeID bool
+	NoCancel        bool // no BlobWriter.Cancel (it has no wire representation)
+	NoWrongOffset   bool // no deliberately wrong resume offsets
+	NoHint          bool // chunk-size hint always 0
 }
 
 var validRepoPool = []string{"foo", "foo/bar", "fooey", "a/blobs/uploads", "manifests/x/tags", "b", "x1/referrers", "v2/list"}
@@ -251,13 +254,16 @@ func Gen(cfg Config) func(t *rapid.T) Script {
 					sh.pending[op.W] = false
 				default:
 					op.K = rapid.SampledFrom([]string{"upWrite", "upWrite", "upWrite", "upWrite", "upResume", "upResume", "upResume", "upCommit", "upCommit", "upSize", "upCancel", "upClose", "upStart"}).Draw(t, "upKind")
+					if op.K == "upCancel" && cfg.NoCancel {
+						op.K = "upSize"
+					}
 				}
 			}
 			switch op.K {
 			case "pushBlob":
 				op.B = rapid.IntRange(0, nb-1).Draw(t, "blob")
 				if cfg.Mismatch && rapid.IntRange(0, 7).Draw(t, "mismatch") == 0 {
-					op.Mode = rapid.IntRange(1, 4).Draw(t, "mismatchKind")
+					op.Mode = rapid.IntRange(1, 3).Draw(t, "mismatchKind") // mode 4 (empty media type) is a documented gray zone: not generated
 				} else {
 					sh.blobs[[2]int{op.R, op.B}] = 1
 				}
@@ -339,6 +345,9 @@ func Gen(cfg Config) func(t *rapid.T) Script {
 				}
 			case "upResume":
 				op.Mode = rapid.SampledFrom([]int{0, 0, 0, 1, 1, 2}).Draw(t, "resumeMode")
+				if op.Mode == 2 && cfg.NoWrongOffset {
+					op.Mode = 0
+				}
 				if cfg.UnknownResumeID && rapid.IntRange(0, 9).Draw(t, "unknownID") == 0 {
 					op.Mode = 3
 					op.S = rapid.SampledFrom([]string{"unknown-1", "unknown-2"}).Draw(t, "id")
